@@ -106,7 +106,7 @@ def alphabet(position: int) -> t.List[tuple]:
     return out
 
 
-def encode_elem(elem: tuple, idx: int) -> t.Optional[bytes]:
+def encode_elem(elem: tuple, idx: int, call_id: int = 1) -> t.Optional[bytes]:
     if elem[0] == "ack":
         _, kind, vec, sign, token = elem
         results = []
@@ -114,14 +114,14 @@ def encode_elem(elem: tuple, idx: int) -> t.Optional[bytes]:
             results.append((r, 0 if r != REJ else 2, rrpc.NDR64[0] if r == ACC else uuid.UUID(int=0), 1 if r == ACC else 0))
         auth = dict(type=10, level=6, pad=0, ctx=0, token=b"SRV%d" % idx) if token else None
         return rrpc.encode(
-            dict(ptype=rrpc.BIND_ACK if kind == "bind_ack" else rrpc.ALTER_CONTEXT_RESP, flags=FL | (4 if sign else 0), call_id=1, auth=auth, max_xmit=5840, max_recv=5840, assoc=7, sec_addr="49668" if kind == "bind_ack" else "", results=results)
+            dict(ptype=rrpc.BIND_ACK if kind == "bind_ack" else rrpc.ALTER_CONTEXT_RESP, flags=FL | (4 if sign else 0), call_id=call_id, auth=auth, max_xmit=5840, max_recv=5840, assoc=7, sec_addr="49668" if kind == "bind_ack" else "", results=results)
         )
     if elem[0] == "bind_nak":
-        return rrpc.encode(dict(ptype=rrpc.BIND_NAK, flags=FL, call_id=1, auth=None, reason=4, versions=[(5, 0)]))
+        return rrpc.encode(dict(ptype=rrpc.BIND_NAK, flags=FL, call_id=call_id, auth=None, reason=4, versions=[(5, 0)]))
     if elem[0] == "fault":
-        return rrpc.encode(dict(ptype=rrpc.FAULT, flags=FL, call_id=1, auth=None, alloc_hint=0, ctx_id=0, cancel_count=0, fault_flags=0, status=5, stub=b""))
+        return rrpc.encode(dict(ptype=rrpc.FAULT, flags=FL, call_id=call_id, auth=None, alloc_hint=0, ctx_id=0, cancel_count=0, fault_flags=0, status=5, stub=b""))
     if elem[0] == "response":
-        return rrpc.encode(dict(ptype=rrpc.RESPONSE, flags=FL, call_id=1, auth=None, alloc_hint=4, ctx_id=0, cancel_count=0, stub=b"\0\0\0\0"))
+        return rrpc.encode(dict(ptype=rrpc.RESPONSE, flags=FL, call_id=call_id, auth=None, alloc_hint=4, ctx_id=0, cancel_count=0, stub=b"\0\0\0\0"))
     return None  # eof
 
 
@@ -206,7 +206,7 @@ class Harness:
             i = state["n"]
             state["n"] += 1
             if i < len(script):
-                raw = encode_elem(script[i], i)
+                raw = encode_elem(script[i], i, tr.call_id_of(data))
                 isd_handler.last = raw is None or i == len(script) - 1
                 return [raw] if raw else []
             isd_handler.last = True
